@@ -88,6 +88,19 @@ def triStrokeGuard (t : Tri) (style : TriStyle) : Bool :=
       (!style.fillColor.isSome || (U.contains t.v1 && U.contains t.v2 && U.contains t.v3))
   | _ => true
 
+/-- `TriStrokeColumnsGuard t style` (EG/Lemmas/JoinsBBoxTriAlign.lean): `TriStrokeGuard` with the vertex
+clause weakened to the columns of the stroke box. -/
+def triStrokeColumnsGuard (t : Tri) (style : TriStyle) : Bool :=
+  match closedSegments3 t.sortedClockwise style.strokeWidth style.strokeAlignment.toOffset with
+  | some [a, b, c] =>
+    let U := foldEdgeBoxes [a, b, c]
+    decide ((-2147483648 : Int) ≤ U.tl.y) && adjOK U a b && adjOK U b c && adjOK U c a &&
+      (!style.fillColor.isSome ||
+        (decide (U.tl.x ≤ t.v1.x) && decide (t.v1.x ≤ U.tl.x + U.size.w - 1) &&
+         decide (U.tl.x ≤ t.v2.x) && decide (t.v2.x ≤ U.tl.x + U.size.w - 1) &&
+         decide (U.tl.x ≤ t.v3.x) && decide (t.v3.x ≤ U.tl.x + U.size.w - 1)))
+  | _ => true
+
 /-- `TriOutlineGuard t style` (EG/Lemmas/JoinsBBoxTriMain.lean). -/
 def triOutlineGuard (t : Tri) (style : TriStyle) : Bool :=
   match triStyledBoundingBox t style with
